@@ -12,12 +12,12 @@ for line in open(os.path.join(VERIF, "properties.jsonl")):
 # id -> (technique, level text, level note, design ref, engine spec modules)
 CLAIMED = {
     "C01": ("TLA+ spec Die (description universe + greedy cover state machine) model-checked by TLC; TLC-generated "
-            "descriptions built as real Die objects under 7 float embeddings; verdict and reported lists trace-validated by TLC (DieTrace)",
+            "descriptions built as real Die objects under 10 float embeddings and 5 input forms; verdict and reported lists trace-validated by TLC (DieTrace)",
             "Every description (valid and invalid, incl. regions leaving the die) of the bounded universe is enumerated by TLC; "
             "accept <=> valid and exact tiling are TLC invariants of the model and TLC-evaluated clauses on every real observation; "
             "random larger guillotine dies with injected defects follow the same path.",
             "bounded universe (3x3 die, <=2 regions with margin, <=3 inside, sliver/1000:1 metrics in thorough; random to 12x12, 10 regions); "
-            "floats sampled by 7 origin-0 embeddings; each fixed rectangle is its own fixed module",
+            "floats sampled by 10 origin-0 embeddings (incl. 1e-6, 1e9 and the non-binary 1234567.8 step); the description is given as tree / numpy tree / YAML text / file / 'WxH' string; one netlist in four reaches its state through the API, one tree in five serves two dies; each fixed rectangle is its own fixed module",
             "DESIGN.md 4 (C01)", ["Geometry", "DieOps", "Die", "DieMC", "DieTrace"]),
     "C02": ("TLA+ spec Alloc/AllocOps (refine / uniform / griddify as actions, conservation as an ACTION property) model-checked by TLC; "
             "TLC-generated operation sequences replayed on real Allocation objects under 8 embeddings; every observed step trace-validated by TLC (AllocTrace)",
@@ -25,7 +25,7 @@ CLAIMED = {
             "first moments, inheritance and leaves fixed cells uncut, and evaluates exactly these clauses (plus 'the call succeeded' and the "
             "area()/center() accessors) on every step observed on the real code.",
             "bounded universe (<=3 cells on 3x3, 4 occupancy maps, depths 0..1, sequences of 2 ops; random allocations to 8 cells / 3 modules / "
-            "decimal ratios); 8 embeddings; allocations with a zero-area module are not constructible and skipped",
+            "decimal ratios); 10 embeddings (incl. 1e-6 and the non-binary 1234567.8 step); recorded depths up to 17; allocations with a zero-area module are not constructible and skipped",
             "DESIGN.md 4 (C02)", ["Geometry", "AllocOps", "Alloc", "AllocMC", "AllocTrace"]),
     "C12": ("TLA+ spec Alloc/AllocOps (RefineExact / UniformExact / Aligned as ACTION properties, predicate/operation agreement as invariant) "
             "model-checked by TLC; behaviours replayed on real Allocation objects incl. the refine-while-needed loop; trace-validated by TLC (AllocTrace)",
@@ -41,7 +41,7 @@ CLAIMED = {
             "Every ratio, listing and ownership of the returned allocation is recomputed by TLC from corner coordinates for every enumerated "
             "(die, netlist, option) and for random larger ones, on unrefined and split dies; the 'Hence' consequences are TLC invariants of the model.",
             "bounded universe (2x2 die, <=1 region, <=2 movable modules from all lattice rectangles / squares; random dies to 12x12, <=4 modules); "
-            "7 embeddings; under inexact embeddings a module sharing an edge with a cell may be listed with ratio 0 (last-bit overlap); "
+            "9 embeddings; soft rectangles with region tags and with a declared area above what they cover, fixed modules of several rectangles, netlists reached through the API or built twice from one tree, hard modules moved in place and re-allocated; under inexact embeddings (and after an in-place move) a module sharing an edge with a cell may be listed with ratio 0 (last-bit overlap); "
             "completely blocked dies and dies/netlists rejected at load are outside",
             "DESIGN.md 4 (C03)", ["Geometry", "DieOps", "AllocOps", "InitAlloc", "InitAllocTrace"]),
     "C07": ("TLA+ specs SatLayer (allowed sets + specified CNF) and Robdd (isclause, constructrobdd with the shared store, Tseitin, "
@@ -111,7 +111,7 @@ CLAIMED = {
             "TLC checks count / parent+tag / per-parent tiling / aspect-ratio / untouched blockages+fixed as invariants of the modelled algorithm "
             "for every valid description of the bounded universe, and evaluates the same clauses on every observed call (single requests and "
             "two-step sequences, r in {1.42,1.5,1.75,2,3}, n <= 30).",
-            "bounded universe (3x3 die, <=2 regions; random dies to 12x12); dies with no refinable region excluded; 7 embeddings",
+            "bounded universe (3x3 die, <=2 regions; random dies to 12x12); dies with no refinable region excluded; 10 embeddings; request histories on one die (no-op request, grid, refused request, then a request whose count is already met), one-cell grids",
             "DESIGN.md 4 (C11)", ["Geometry", "DieOps", "Die", "DieMC", "DieTrace"]),
     "C04": ("TLA+ spec Fpef (abstract FPEF document, assertion-shaped Read, intended Write) model-checked by TLC for Read(Write(n)) = n and "
             "repeatable Write; TLC-generated and seeded random documents loaded, written, reloaded and rewritten by frame.netlist.Netlist "
@@ -187,7 +187,7 @@ CLAIMED = {
             "Every operand pair / single rectangle of a bounded lattice with every public operation and argument is "
             "enumerated by TLC, the geometric laws are TLC invariants, and each real result is judged by TLC against "
             "the specification; random larger cases follow the same path.",
-            "bounded lattice (4x4 exhaustive, random to 60x60); floats sampled by 8 embeddings; the open sliver band of "
+            "bounded lattice (4x4 exhaustive, random to 60x60); floats sampled by 10 embeddings; touching also under a stated coarse tolerance, containment also against the objects' own corner coordinates, cuttable with fraction 0 / default on 100:1 rectangles, live objects moved in place; the open sliver band of "
             "x/y_cuttable and last-bit ties of exact comparisons under inexact embeddings are left free as the statement does",
             "DESIGN.md 4 (C18)", ["Geometry", "GeometryOps", "GeometryTrace"]),
     "C19": ("TLA+ spec Docs (abstract objects, documents and readers for DIEF / allocation / FPEF, generator topologies with Defined, FloorSet "
@@ -210,7 +210,7 @@ CLAIMED = {
             "in a fresh fork: same canonical digest of the observable result for 7 probe kinds (netlist load incl. rejected ones, die "
             "decomposition+split, allocation refinement, STOG recognition, SAT encoding projection, legaliser equation vector, STROP).",
             "conservative reading of the factor-1000 band (every dimension pair); the result digest covers verdicts, numbers (exact repr), "
-            "region/cell sets, roles, CNF projection, equation-met vector; fresh interpreter = forked child of a parent that imported but never used FRAME",
+            "region/cell sets, roles, CNF projection, equation-met vector; history kinds incl. undefine_epsilon, pads-only netlists, create_initial_allocation, refused operations and a whole tools/rect run; designs given as trees and as YAML texts (one history text in four with a %YAML 1.1 directive); the written documents are part of the digest; fresh interpreter = forked child of a parent that imported but never used FRAME",
             "DESIGN.md 4 (C20)", ["Process", "ProcessTrace"]),
 }
 
